@@ -269,8 +269,9 @@ class Instantiator:
             r = UF["sqrt"](xx * xx + y * y)
             ax += [
                 z3.Implies(z3.Or(xx != 0, y != 0), z3.And(a > -PI, a <= PI, xx == r * UF["cos"](a), y == r * UF["sin"](a), r > 0)),
+                z3.Implies(z3.And(xx == 0, y == 0), a == 0),
             ]
-            N("arctan2: polar decomposition on (-pi,pi]")
+            N("arctan2: polar decomposition on (-pi,pi]; atan2(0,0)=0 (C99 / numpy convention for +0)")
         elif fn == "erf":
             ax += [a < 1, a > -1, z3.Implies(x == 0, a == 0), z3.Implies(x > 0, a > 0), z3.Implies(x < 0, a < 0)]
             N("erf: range, sign")
@@ -364,7 +365,34 @@ class Instantiator:
         "arccos": lambda x: z3.And(x >= -1, x <= 1),
     }
 
+    def _trig_pairs(self, a):
+        """injectivity / monotonicity of sin and cos on their principal ranges (pairwise over arguments)"""
+        x = a.arg(0)
+        args = self.__dict__.setdefault("trig_args", {})
+        if x.get_id() in args or len(args) > 8:
+            return []
+        out = []
+        sx, cx = UF["sin"](x), UF["cos"](x)
+        for y in args.values():
+            sy, cy = UF["sin"](y), UF["cos"](y)
+            inp = lambda t: z3.And(t >= -PI / 2, t <= PI / 2)
+            inc = lambda t: z3.And(t >= 0, t <= PI)
+            inf = lambda t: z3.And(t > -PI, t <= PI)
+            out += [
+                z3.Implies(z3.And(inp(x), inp(y), x < y), sx < sy),
+                z3.Implies(z3.And(inp(x), inp(y), y < x), sy < sx),
+                z3.Implies(z3.And(inc(x), inc(y), x < y), cx > cy),
+                z3.Implies(z3.And(inc(x), inc(y), y < x), cy > cx),
+                z3.Implies(z3.And(inf(x), inf(y), sx == sy, cx == cy), x == y),
+            ]
+        args[x.get_id()] = x
+        if out:
+            self.names.add("sin/cos strictly monotone on [-pi/2,pi/2] / [0,pi], (cos,sin) injective on (-pi,pi] (pairwise instances)")
+        return out
+
     def _pairwise(self, fn, a):
+        if fn in ("sin", "cos"):
+            return self._trig_pairs(a)
         if fn not in self._MONO:
             return []
         others = self.apps_by_fn.get(fn, [])
